@@ -215,6 +215,10 @@ def main(argv=None) -> int:
                 wit = f
                 used.add(id(f))
                 break
+        if wit is None and (o.get("replay") or {}).get("repro"):
+            ok, out = run_repro(o["replay"]["repro"])
+            if ok:
+                wit = {"key": "replayed:" + base_name(o["name"]), "function": fn, "what": out[-1500:], "repro": o["replay"]["repro"]}
         path = os.path.join(replay_dir, re.sub(r"[^A-Za-z0-9_.-]+", "_", o["name"])[:150] + ".json")
         with open(path, "w") as fh:
             json.dump({"property": prop, "obligation": o["name"], "kind": o["kind"], "function": o["function"], "line": o["line"],
@@ -304,6 +308,18 @@ def main(argv=None) -> int:
     return code
 
 
+def run_repro(src: str):
+    """run a native reproduction against the current tree; (True, output) iff it fails there (= the violation reproduces)"""
+    env = dict(os.environ)
+    env["PYTHONPATH"] = os.path.join(core.REPO, "src") + os.pathsep + HERE
+    env["MPLBACKEND"] = "Agg"
+    try:
+        p = subprocess.run([BOUNDED_PY, "-c", src], env=env, capture_output=True, text=True, timeout=600)
+    except subprocess.TimeoutExpired:
+        return False, "timeout"
+    return p.returncode != 0, (p.stdout + p.stderr)
+
+
 def _z3v():
     import z3
     return z3.get_version_string()
@@ -318,11 +334,10 @@ def replay(path: str) -> int:
     if not repro:
         print("no native reproduction stored (no-failing-input-found); the failed obligation and solver output are above")
         return 1
-    env = dict(os.environ)
-    env["PYTHONPATH"] = os.path.join(core.REPO, "src") + os.pathsep + HERE
-    p = subprocess.run([BOUNDED_PY, "-c", repro], env=env, capture_output=True, text=True)
-    print(p.stdout[-3000:], p.stderr[-3000:])
-    return 1 if p.returncode != 0 else 0
+    ok, out = run_repro(repro)
+    print(out[-3000:])
+    print("REPRODUCED" if ok else "not reproduced on this tree")
+    return 1 if ok else 0
 
 
 if __name__ == "__main__":
